@@ -40,6 +40,16 @@ class C06(GProp):
                     for l2 in leaves:
                         for b in binary:
                             add(t, b(l, l2), ['drop', 'Ws'])
+        # a sub-parse mark mid-stream (tokens consumed, no look-ahead buffered) directly in front of, or inside, a temporary filter
+        # change: the mark drops the filtered tokens in front of it, so an inner `unfiltered` does not see them
+        for i in range(300 if tier == 'quick' else 3000):
+            head = r.choice([['one', 'A'], ['seq', 'A', 'B'], ['any', 'A', 'B'], ['pred', ['is', 'A']]])
+            inner = r.choice([['one', 'B'], ['maybe', ['one', 'Ws']], ['one', 'Ws'], ['both', ['maybe', ['one', 'Ws']], ['one', 'B']], 'empty', ['seq', 'B', 'A']])
+            fc = r.choice([['unfiltered', inner], ['filterwith', ['keep', 'A', 'B', 'Ws', 'Comma'], inner], ['filterwith', ['drop', 'Comma'], inner]])
+            g = r.choice([[r.choice(['right', 'both']), head, ['sub', fc]], ['both', head, ['both', ['sub', fc], ['maybe', ['one', 'B']]]],
+                          ['both', head, ['sub', ['both', ['maybe', ['one', 'C']], fc]]], ['both', head, fc]])
+            t = r.choice([['a'], ['a', 'b'], ['b', 'a']]) + spangen.random_text(r, ['sp', 'sp', 'comma', 'b', 'a'], 1 + r.below(4))
+            add(t, g, r.choice([['drop', 'Ws'], ['drop', 'Ws'], ['drop', 'Ws', 'Comma']]))
         for i in range(3000 if tier == 'quick' else 40000):
             g = parsegen.gen_c06(r, 2 + r.below(10 if tier == 'quick' else 14))
             t = spangen.random_text(r, TEXT_ALPHA, 12 if tier == 'quick' else 30)
@@ -63,7 +73,9 @@ class C06(GProp):
         if fails:
             c = pfields(ct)
             gs = sexp.dump(c['g'])
-            if 'sub' in gs and ('filterwith' in gs or 'unfiltered' in gs):
+            # a mark keeps the filtered tokens in front of it only when a look-ahead is buffered there; within this family only
+            # seq_count (stopping at a mismatch) and the restore step of a filter change leave one behind on success
+            if 'sub' in gs and ('filterwith' in gs or 'unfiltered' in gs) and ('seqcount' in gs or gs.count('filterwith') + gs.count('unfiltered') >= 2):
                 # the recorded C05 finding seen through the combinators: a `sub` mark reached with a look-ahead buffered
                 # does not drop the filtered tokens in front of it, which a later filter change makes visible. If the
                 # reading "sub marks do not drop" explains the result exactly, the failure belongs to that finding.
